@@ -129,8 +129,37 @@ func c04One(r *Run, in *instance, wr string) {
 			selected[idx] = true
 		}
 	}
+	// every constant in a condition of the circuit (for "does the key reach a condition")
+	constVals := map[string]bool{}
+	{
+		seen := map[*sym.Term]bool{}
+		var visit func(t *sym.Term)
+		visit = func(t *sym.Term) {
+			if t == nil || seen[t] {
+				return
+			}
+			seen[t] = true
+			if t.Op == sym.OpConst && t.C != nil {
+				constVals[t.C.String()] = true
+			}
+			for _, a := range t.Args {
+				visit(a)
+			}
+			if t.Def != nil {
+				visit(t.Def)
+			}
+			for _, a := range t.Aux {
+				visit(a)
+			}
+		}
+		for _, c := range w.E.Cons {
+			visit(c.A)
+			visit(c.B)
+		}
+	}
 	nSecret := 0
-	for _, k := range keys {
+	for ki, k := range keys {
+		ki := ki
 		k := k
 		t := w.E.K(k.v)
 		site := fmt.Sprintf("verifier key element is a prover-chosen witness (%s wrapper)", wr)
@@ -142,6 +171,24 @@ func c04One(r *Run, in *instance, wr string) {
 			em.Raw("(declare-const witness_choice Int)")
 			em.Assert(fmt.Sprintf("(not (= %s %s))", em.Ref(t), em.Ref(t)))
 			r.Add(&Ob{Name: fmt.Sprintf("key-fixed[%s/%s,%s]", in.Name, wr, k.name), Family: "verifier-key-binding", Script: em.String(), Site: site, Bound: bnd + " (compile-time constant)"})
+			// ... and it must reach a condition: a cap entry is looked up by the query's cap index in the
+			// Merkle check of the constants/sigmas oracle, so its value occurs in that condition
+			if ki < len(vd.ConstantSigmasCap) && !constVals[t.C.String()] {
+				cr := &circuitReplay{Kind: "circuit", Wrapper: wr, Instance: in.Base, K: in.K, Expect: "accepted", KeyEdits: []keyEdit{{Index: ki, Add: "1"}}}
+				for j := range vd.ConstantSigmasCap {
+					if j != ki {
+						cr.KeyEdits = append(cr.KeyEdits, keyEdit{Index: j, Add: "1"})
+					}
+				}
+				acc, msg := runCircuitReplay(cr, r.Repo)
+				if acc {
+					r.addViolationWithReplay(fmt.Sprintf("verifier key element does not reach any condition (%s wrapper)", wr),
+						fmt.Sprintf("%s/%s: the constant %s of the verifier key occurs in no condition of the circuit; a wrapper built for a key whose constants/sigmas cap is altered in every entry accepts the proof of the original inner circuit", in.Name, wr, k.name),
+						toMap(cr), "real circuit built for the altered key (test.IsSolved) accepts the unmodified valid proof")
+				} else {
+					r.Infra("%s/%s: key element %s occurs in no condition, but the wrapper built for the altered key rejects the honest proof (%s)", in.Name, wr, k.name, short(msg, 80))
+				}
+			}
 		case t.Op == sym.OpAtom && vis[t] == "public":
 			em.Assert(fmt.Sprintf("(not (= %s %s))", em.Ref(t), em.Ref(t)))
 			r.Add(&Ob{Name: fmt.Sprintf("key-public[%s/%s,%s]", in.Name, wr, k.name), Family: "verifier-key-binding", Script: em.String(), Site: site, Bound: bnd + " (public input)"})
